@@ -7,7 +7,7 @@ import tx
 from impl import trees, transform, quiet, clone, tag_uids, mk_leaf, mk_node
 
 ID = "C12"
-MODULE = ['TT.Props.C12', 'TT.Props.C12Land', 'TT.Props.Pinned', 'TT.Props.C12Ref']
+MODULE = ['TT.Props.C12', 'TT.Props.C12Land', 'TT.Props.Pinned', 'TT.Props.C12Ref', 'TT.Props.C12More2']
 RULE = ("random well-formed trees whose root has 1..6 children (tokens and constituents, continuous or not, adjacent, "
         "interleaved, at the sentence edges, inside gaps) + all shapes up to 4/5 tokens; non-trivial: some node changed parent")
 TRUSTED = ["the set-based reference TT/Spec/RootAttachRef.lean (parent maps and token sets; about 75 lines) is a statement of intent; "
